@@ -22,7 +22,10 @@ static size_t env_fwrite(const void *p, size_t sz, size_t n, FILE *f) { (void) p
 #undef fclose
 #undef fwrite
 
-static LHAFileHeader hdrs[M];
+/* one object per member (NOT an array of structs: pointers into an array get a symbolic offset and every
+ * header access turns into a byte-extract over the whole array) */
+static LHAFileHeader env_h0, env_h1, env_h2, env_h3;
+static LHAFileHeader *const hdrs[4] = { &env_h0, &env_h1, &env_h2, &env_h3 };
 static char out_name[M][2];             /* the caller's output path per member: only its identity matters */
 static unsigned env_cur;                /* 0 before the first member, k = k-th member current, M+1 = exhausted */
 static char env_basic_token;
@@ -31,13 +34,13 @@ static LHAReader rd;
 static LHAFileHeader *env_member(unsigned k)
 {
 	unsigned i;
-	for (i = 0; i < M; ++i) if (k == i + 1) return &hdrs[i];    /* case split keeps pointers simple */
+	for (i = 0; i < M; ++i) if (k == i + 1) return hdrs[i];    /* case split keeps pointers simple */
 	return NULL;
 }
 static int env_index(const LHAFileHeader *h)
 {
 	unsigned i;
-	for (i = 0; i < M; ++i) if (h == &hdrs[i]) return (int) i;
+	for (i = 0; i < M; ++i) if (h == hdrs[i]) return (int) i;
 	return -1;
 }
 #define env_exhausted() (env_cur > M)
